@@ -15,6 +15,10 @@ bit); getbytes(start, l) for start in [-2, len+2], l in [0, len+2]; get_u8/16/32
 addr in [-1, len+1]; for sources whose base is not 0 also a few reads at absolute addresses around 0.
 Each read is performed (a) outside atomic mode, (b) alone inside atomic mode, (c) inside atomic mode after each other
 read of the same list (all ordered pairs, a fresh atomic session per pair).
+Mutable sources (file, vm, pe, elf) additionally: (d) two atomic sections on one stream with the source changed in between
+(every content byte replaced by its complement through os.pwrite / vm.set_mem / pe.virt.set / the ELF image): section 1
+performs one read (each read of the list in turn) or every read, section 2 performs every read and must see the current
+content - a cache filled while decoding one instruction must not answer for the next one.
 
 Demanded (property text only): a read lying inside the source returns exactly the bits (most significant first, honouring
 base address / byte order); a read with a part outside raises IOError; cached == uncached. Zero-length reads inside the
@@ -33,7 +37,7 @@ PROP = "C25"
 LEVEL = "exploration"
 ENGINE = "enum"
 RULE = ("every (source kind, content, read) with the reads listed in `bounds`, each in three modes (plain, atomic, atomic after "
-        "every other read); a read is non-trivial when it is bit-unaligned, zero-length, or touches / crosses / lies past a bound "
+        "every other read) and, on mutable sources, in a second atomic section after the source changed; a read is non-trivial when it is bit-unaligned, zero-length, or touches / crosses / lies past a bound "
         "of the source (distinct (source, content, read) triples are counted)")
 LEVEL_TEXT = ("Bounded-exhaustive: every bit offset / bit length, byte range and integer read inside, across and past the bounds of "
               "short contents with distinct bit patterns, on every kind of byte source, compared with big-integer slicing of the "
@@ -41,7 +45,7 @@ LEVEL_TEXT = ("Bounded-exhaustive: every bit offset / bit length, byte range and
 LEVEL_NOTE = ("Trusted: Python int slicing; the installed VmMngr extension, miasm.loader PE builder / ELF parser and the OS file are "
               "used as byte containers (their content is what the check put in). Not covered: contents longer than 4 bytes "
               "(one 8-byte content is read in single mode so that get_u64 has a readable range), "
-              "negative lengths, the cursor API (readbs/setoffset/getlen after moving the cursor), more than two reads per atomic "
+              "negative lengths, bin_stream_str over a mutable buffer, the cursor API (readbs/setoffset/getlen after moving the cursor), more than two reads per atomic "
               "session, PE/ELF images with several sections.")
 TECHNIQUE = "complete enumeration of bit/byte/integer reads over short contents against big-integer slicing"
 ASSUMPTIONS = ["bit extraction does not depend on content length beyond 4 bytes (the byte loop is length-generic)",
@@ -171,8 +175,34 @@ class Source(object):
         self.mem = self.pre + content
         self.hi = self.lo + len(self.mem)
 
-    def stream(self):
-        """a fresh stream object"""
+    MUTABLE_KINDS = ("file", "vm", "pe", "elf")
+
+    def set_content(self, new):
+        """replace the bytes held by the real source (same length) and the oracle's view of them"""
+        assert len(new) == len(self.content)
+        k, p = self.kind, self.p
+        if k == "file":
+            fd = os.open(self._path, os.O_WRONLY)
+            try:
+                os.pwrite(fd, new, 0)
+            finally:
+                os.close(fd)
+        elif k == "vm":
+            if new:
+                self._vm.set_mem(p["page"], new)
+        elif k == "pe":
+            if new:
+                self._bin.virt.set(self.base, new)
+        elif k == "elf":
+            self._bin._content = self._bin._content[:84] + new
+        else:
+            raise ValueError("source %s is not mutable" % self.name)
+        self.content = new
+        self.mem = self.pre + new
+
+    def stream(self, unbuffered=False):
+        """a fresh stream object (unbuffered: the file is opened without Python-level buffering, so that a change of
+        the file is visible to the next OS read and any stale byte is miasm's)"""
         from miasm.core import bin_stream as B
         k, p = self.kind, self.p
         if k == "str":
@@ -182,7 +212,7 @@ class Source(object):
         if k == "file":
             if self._fd is not None:
                 self._fd.close()
-            self._fd = open(self._path, "rb")
+            self._fd = open(self._path, "rb", buffering=0) if unbuffered else open(self._path, "rb")
             return B.bin_stream_file(self._fd, offset=self.base, base_address=self.base)
         if k == "vm":
             return B.bin_stream_vm(self._vm, base_offset=p["base_offset"])
@@ -461,6 +491,63 @@ def check_sessions(src, r1, r2s):
     return vs
 
 
+def flip(content):
+    return bytes(b ^ 0xFF for b in content)
+
+
+def check_resection(src, reads, first, first_label, judge=None, stats=None):
+    """Two atomic sections on one fresh stream with a change of the source in between:
+         section 1: the reads of `first`; leave; every content byte is replaced by its complement;
+         section 2: every read of `reads`, judged against the *current* content (a cache must not outlive its section).
+    judge: per-read (expected, alternative, skeleton, plain_ok) for the changed content, or None to compute it here.
+    The original content is restored before returning."""
+    orig = src.content
+    vs = []
+    bs = src.stream(unbuffered=True)
+    bs.enter_atomic_mode()
+    for r in first:
+        do_read(bs, r)
+    bs.leave_atomic_mode()
+    src.set_content(flip(orig))
+    try:
+        if judge is None:
+            judge = resection_judge(src, reads)
+        bs.enter_atomic_mode()
+        for r2, (exp, alt, skel, plain_ok) in zip(reads, judge):
+            got = do_read(bs, r2)
+            if type(got) is type(exp) and got == exp:
+                continue
+            if good(got, exp, alt):
+                continue
+            if not plain_ok:
+                if stats is not None:
+                    stats["resection_read_already_wrong_alone"] += 1
+                continue
+            kind, _ = classify(r2, got, exp, skel)
+            op = OPS[r2[0]] if r2[0] < 2 else "get_uN"
+            sig = "%s:%s:%s:second-atomic-section-after-source-change:%s" % (src.cls, op, coarse(skel), kind)
+            what = ("%s on %s returned %s, expected %s [second atomic section of one stream; the first section performed %s, then "
+                    "the content %s was replaced by %s]" % (show(r2), describe(src), showv(got), showv(exp), first_label,
+                                                            orig.hex(), src.content.hex()))
+            vs.append(violation(sig, what, {"src": src.name, "content": orig.hex(), "mode": "resection",
+                                            "first": "all" if first_label == "every read of the list" else [list(x) for x in first],
+                                            "r": list(r2)}))
+        bs.leave_atomic_mode()
+    finally:
+        src.set_content(orig)
+    return vs
+
+
+def resection_judge(src, reads):
+    """expectations for the *current* content of src + whether the plain read (fresh stream, no atomic mode) is right"""
+    out = []
+    for r in reads:
+        exp, alt, skel = expect(src, r)
+        got = do_read(src.stream(unbuffered=True), r)
+        out.append((exp, alt, skel, good(got, exp, alt)))
+    return out
+
+
 # ----------------------------------------------------------------------------------------------
 # shards
 # ----------------------------------------------------------------------------------------------
@@ -480,6 +567,23 @@ def _shard(args):
 
     src = Source(name, content)
     try:
+        if kind in ("resect", "resect-all"):
+            with Quiet(src.kind == "vm"):
+                reads = build_reads(src.base, len(content))
+                src.set_content(flip(content))
+                judge = resection_judge(src, reads)
+                src.set_content(content)
+                if kind == "resect-all":
+                    add(check_resection(src, reads, reads, "every read of the list", judge, stats))
+                    stats["resections"] += 1
+                    stats["evaluations"] += 2 * len(reads)
+                else:
+                    for i in range(lo, min(hi, len(reads))):
+                        add(check_resection(src, reads, [reads[i]], show(reads[i]), judge, stats))
+                        stats["resections"] += 1
+                        stats["evaluations"] += 1 + len(reads)
+            vs = [v for sig in sorted(kept) for v in kept[sig]]
+            return dict(stats), vs, dict(nviol), 0, len(reads)
         with Quiet(src.kind == "vm"):
             reads = build_reads(src.base, len(content))
             exps = [expect(src, r) for r in reads]
@@ -561,6 +665,21 @@ def tiers(quick):
     return list(CONTENTS) + [LONG], pairs
 
 
+def resection_tiers(quick):
+    """{mutable source name: contents} for (a) section 1 = every read, (b) section 1 = one read, for each read in turn"""
+    mutable = [s[0] for s in SOURCES if s[2] in Source.MUTABLE_KINDS]
+    every = dict((name, [c for c in CONTENTS + [LONG] if c]) for name in mutable)
+    if quick:
+        each = dict((name, [MASTERS[0][:1]]) for name in mutable)
+        for name in QUICK_PAIR_LEN2_SOURCES:
+            if name in each:
+                each[name] = each[name] + [MASTERS[0][:2]]
+    else:
+        ec = [c for c in CONTENTS if 1 <= len(c) <= 2 or (len(c) == 3 and any(c == m[:3] for m in MASTERS[:2]))]
+        each = dict((name, list(ec)) for name in mutable)
+    return every, each
+
+
 def run(ctx):
     from miasm.core.utils import LITTLE_ENDIAN, BIG_ENDIAN
     assert (LITTLE_ENDIAN, BIG_ENDIAN) == (LE, BE)
@@ -575,6 +694,15 @@ def run(ctx):
             nreads = len(build_reads(source_base(name), len(c)))
             for lo in range(0, nreads, chunk):
                 shards.append(("pair", name, c, lo, lo + chunk))
+    resect_every, resect_each = resection_tiers(ctx.quick)
+    for name in sorted(resect_every):
+        for c in resect_every[name]:
+            shards.append(("resect-all", name, c, 0, 0))
+    for name in sorted(resect_each):
+        for c in resect_each[name]:
+            nreads = len(build_reads(source_base(name), len(c)))
+            for lo in range(0, nreads, chunk):
+                shards.append(("resect", name, c, lo, lo + chunk))
     # heavy shards first (longest contents), cheap ones fill the tail
     order = sorted(range(len(shards)), key=lambda i: (-len(shards[i][2]), i))
     shards = [shards[i] for i in order]
@@ -613,6 +741,8 @@ def run(ctx):
         "expect_empty_or_IOError": stats["expect_empty_or_IOError"],
         "distinct_outcomes": nvalues,
         "atomic_pairs": stats["pairs"],
+        "atomic_section_pairs_with_source_change": stats["resections"],
+        "resection_read_already_wrong_alone": stats["resection_read_already_wrong_alone"],
         "plain_reads_wrong": stats["plain_wrong"],
         "pairs_second_read_already_wrong_alone": stats["pairs_second_read_already_wrong_alone"],
         "evaluations_per_source": dict(per_source),
@@ -627,7 +757,10 @@ def run(ctx):
             "getbytes": "start in [-2, len+2] x l in [0, len+2]",
             "get_uN": "N in 8,16,32,64 x addr in [-1, len+1] x endianness in (default, LITTLE_ENDIAN, BIG_ENDIAN)",
             "absolute_low_reads_when_base_nonzero": True,
-            "modes": ["plain", "atomic", "atomic after every other read (ordered pairs)"],
+            "modes": ["plain", "atomic", "atomic after every other read (ordered pairs)",
+                      "second atomic section of the same stream after the source bytes were complemented (mutable sources)"],
+            "contents_resection_first_section_every_read": dict((k, [c.hex() for c in v]) for k, v in resect_every.items()),
+            "contents_resection_first_section_one_read_each": dict((k, [c.hex() for c in v]) for k, v in resect_each.items()),
         },
     }
 
@@ -646,6 +779,14 @@ def replay(case):
                 return check_pair(src, rd(case["r1"]), rd(case["r"]))
             if mode == "sessions":
                 return check_sessions(src, rd(case["r1"]), [rd(x) for x in case["r2s"]])
+            if mode == "resection":
+                reads = build_reads(src.base, len(src.content))
+                if case["first"] == "all":
+                    vs = check_resection(src, reads, reads, "every read of the list")
+                else:
+                    first = [rd(x) for x in case["first"]]
+                    vs = check_resection(src, reads, first, ", ".join(show(x) for x in first))
+                return [v for v in vs if tuple(v["case"]["r"]) == rd(case["r"])] or vs
             return []
     finally:
         src.close()
